@@ -99,33 +99,145 @@ fn max_number(payload: &[u8]) -> u64 {
     best
 }
 
-/// `"a;b;W;H<c>…` with no further `"`: Some((W, H)); `"a;b;H<c>…`: Some((0, H))
-fn leading_raster(payload: &[u8]) -> Option<(u64, u64)> {
-    if payload.first() != Some(&b'"') {
-        return None;
+/// one raster attribute as the decoder reads it: where its `"` stands, the numbers collected up to the character that
+/// ends it (or up to the end of the payload: `parse_from` flushes with a final `#`)
+#[derive(Clone, Debug, PartialEq)]
+struct RasterAttr {
+    quote_at: usize,
+    nums: Vec<u64>,
+}
+
+/// The raster attributes of a payload, found LEXICALLY: only the reading state of the decoder is followed (which
+/// characters are numbers of a colour select, of a repeat count, of a raster attribute), no pixel is touched.
+/// `#` … numbers … stays a colour introducer until the next control character (data characters do not end it: the
+/// decoder keeps its ReadColor state), `!<n><c>` consumes `<c>` — a `"` after a repeat count starts NO attribute —,
+/// `"` anywhere else starts one, a non-digit other than `;` ends it and is then read as an ordinary character.
+fn raster_attrs(payload: &[u8]) -> Vec<RasterAttr> {
+    #[derive(PartialEq)]
+    enum S {
+        Read,
+        Color,
+        Size,
+        Repeat,
     }
-    // same bookkeeping as the parser: a digit extends the last number (or starts the first), `;` pushes a 0
-    let mut nums: Vec<u64> = vec![];
-    let mut i = 1;
-    while i < payload.len() {
-        let b = payload[i];
-        if b.is_ascii_digit() {
-            let d = nums.pop().unwrap_or(0);
-            nums.push(d.saturating_mul(10).saturating_add((b - b'0') as u64));
-        } else if b == b';' {
-            nums.push(0);
-        } else {
-            break;
+    let mut out: Vec<RasterAttr> = vec![];
+    let mut st = S::Read;
+    let mut cur: Option<RasterAttr> = None;
+    for (i, &b) in payload.iter().enumerate() {
+        let numeric = b.is_ascii_digit() || b == b';';
+        match st {
+            S::Repeat => {
+                if !b.is_ascii_digit() {
+                    st = S::Read; // the repeated character is consumed by the repeat, whatever it is
+                }
+                continue;
+            }
+            S::Color if numeric => continue,
+            S::Size if numeric => {
+                let a = cur.as_mut().unwrap();
+                if b == b';' {
+                    a.nums.push(0);
+                } else {
+                    let d = a.nums.pop().unwrap_or(0);
+                    a.nums.push(d.saturating_mul(10).saturating_add((b - b'0') as u64));
+                }
+                continue;
+            }
+            S::Size => {
+                out.push(cur.take().unwrap());
+                st = S::Read;
+            }
+            _ => {}
         }
-        i += 1;
+        // `b` is read as an ordinary character (parse_sixel_data)
+        match b {
+            b'#' => st = S::Color,
+            b'!' => st = S::Repeat,
+            b'"' => {
+                st = S::Size;
+                cur = Some(RasterAttr { quote_at: i, nums: vec![] });
+            }
+            _ => {}
+        }
     }
-    if i >= payload.len() || payload[i..].contains(&b'"') {
-        return None;
+    if let Some(a) = cur {
+        out.push(a); // flushed by the final `#` of parse_from
     }
-    match nums.len() {
-        3 => Some((0, nums[2])),
-        4 => Some((nums[2], nums[3])),
+    out
+}
+
+/// the size a raster attribute declares: `"Pan;Pad;Ph;Pv` → (Ph, Pv), `"Pan;Pad;Pv` → (0, Pv); two numbers declare none
+fn declared_size(a: &RasterAttr) -> Option<(u64, u64)> {
+    match a.nums.len() {
+        3 => Some((0, a.nums[2])),
+        4 => Some((a.nums[2], a.nums[3])),
         _ => None,
+    }
+}
+
+/// the property sentence "consistent with any declared raster size" on one successfully decoded payload: the LAST
+/// attribute that declares a size fixes the height (taller data is cut — also data that was decoded BEFORE the
+/// attribute arrived —, shorter data is padded); rows the attribute adds are at least as wide as declared
+fn check_raster(run: &mut Run, payload: &[u8], h: &str, w: i64, hh: i64) {
+    let attrs = raster_attrs(payload);
+    if attrs.is_empty() {
+        return;
+    }
+    run.count(&format!("raster:attributes={}", attrs.len().min(4)));
+    let Some((idx, a)) = attrs.iter().enumerate().rev().find(|(_, a)| declared_size(a).is_some()) else {
+        run.count("raster:scales-only");
+        return;
+    };
+    let (rw, rh) = declared_size(a).unwrap();
+    // what had been decoded when the attribute arrived (the real decoder on the prefix; `None`: nothing to compare with)
+    let prefix = to_string(&payload[..a.quote_at]);
+    let before = if a.quote_at == 0 {
+        Some((0i64, 0i64))
+    } else {
+        match catch(move || Sixel::parse_from(Position::default(), 1, 1, [0, 0, 0, 0], &prefix)) {
+            Ok(Ok(sx)) => Some((sx.get_width() as i64, sx.get_height() as i64)),
+            _ => None,
+        }
+    };
+    let place = if a.quote_at == 0 {
+        "leading"
+    } else if before.map_or(true, |b| b.1 == 0) {
+        "before-data"
+    } else {
+        match payload[..a.quote_at].iter().rev().find(|b| !(b.is_ascii_digit() || **b == b';')) {
+            Some(b'-') => "late:after-newline",
+            Some(b'$') => "late:after-cr",
+            _ => "late:in-band",
+        }
+    };
+    let rel = match before {
+        Some((_, bh)) if bh > rh as i64 => "cuts-rows",
+        Some((_, bh)) if bh == rh as i64 => "same-height",
+        Some(_) => "adds-rows",
+        None => "prefix-fails",
+    };
+    run.count(&format!("raster:{}:{}-numbers:{}", place, a.nums.len(), rel));
+    if idx + 1 < attrs.len() {
+        run.count("raster:followed-by-scales-only");
+    }
+    if attrs[..idx].iter().any(|b| declared_size(b).is_some()) {
+        run.count("raster:redeclared");
+    }
+    run.count(if rh as i64 == hh && rw as i64 == w { "raster:equal" } else if (rw as i64) < w { "raster:narrower-than-data" } else { "raster:other" });
+    if hh != rh as i64 {
+        run.oracle_fail(
+            "raster",
+            h,
+            &format!("the raster attribute at byte {} declares {}x{} but the image is {}x{} ({} rows were decoded before it)", a.quote_at, rw, rh, w, hh, before.map_or(-1, |b| b.1)),
+        );
+    } else if let Some((_, bh)) = before {
+        if bh < rh as i64 && w < rw as i64 {
+            run.oracle_fail(
+                "raster",
+                h,
+                &format!("the raster attribute at byte {} adds rows {}..{} of declared width {} but the image is only {} wide", a.quote_at, bh, rh, rw, w),
+            );
+        }
     }
 }
 
@@ -143,12 +255,7 @@ fn one_payload(run: &mut Run, payload: &[u8]) {
             if len != w * hh * 4 {
                 run.oracle_fail("rect", &h, &format!("picture_data.len()={} but width={} height={} (w*h*4={})", len, w, hh, w * hh * 4));
             }
-            if let Some((rw, rh)) = leading_raster(payload) {
-                run.count(if rh as i64 == hh && rw as i64 == w { "raster:equal" } else if (rw as i64) < w { "raster:narrower-than-data" } else { "raster:other" });
-                if hh != rh as i64 || (rh > 0 && w < rw as i64) {
-                    run.oracle_fail("raster", &h, &format!("declared {}x{} but image is {}x{}", rw, rh, w, hh));
-                }
-            }
+            check_raster(run, payload, &h, w, hh);
             if w > 0 && hh > 0 {
                 run.nontrivial(fnv(payload.iter().map(|b| *b as u64)));
             }
@@ -346,6 +453,131 @@ fn gen_tokens(rng: &mut Rng, max_tokens: i64) -> Vec<u8> {
         }
     }
     v
+}
+
+/// one band of data characters, `w` pixels wide (plain characters and repeats), optionally overprinted after `$`
+fn gen_band(rng: &mut Rng, w: i64) -> Vec<u8> {
+    let mut v: Vec<u8> = vec![];
+    if rng.chance(1, 3) {
+        v.extend(format!("#{}", rng.range(0, 15)).bytes());
+        // a data character does not end the colour introducer, a following digit would extend the number: end it
+        // with a `$` (carriage return at column 0: no effect on the picture)
+        v.push(b'$');
+    }
+    let mut x = 0;
+    while x < w {
+        let ch = *rng.pick(DATA);
+        if rng.chance(1, 3) && w - x >= 2 {
+            let n = rng.range(2, (w - x).min(9));
+            v.extend(format!("!{}", n).bytes());
+            v.push(ch);
+            x += n;
+        } else {
+            v.push(ch);
+            x += 1;
+        }
+    }
+    v
+}
+
+fn gen_raster_attr(rng: &mut Rng, w: i64, h: i64) -> Vec<u8> {
+    match rng.below(8) {
+        0 => format!("\"{};{}", rng.range(0, 3), rng.range(0, 3)).into_bytes(), // scales only: declares no size
+        1 | 2 => format!("\"{};{};{}", rng.range(0, 3), rng.range(0, 3), h).into_bytes(),
+        _ => format!("\"{};{};{};{}", rng.range(0, 3), rng.range(0, 3), w, h).into_bytes(),
+    }
+}
+
+/// raster attributes that arrive AFTER picture data: in the middle of a band, right after `-` or `$`, at the very end
+/// (flushed by the end of the payload), several of them; each declares a height below / at / above the rows decoded
+/// so far and a width below / at / above the widest row so far; more data follows (inside and beyond the new height)
+fn gen_late_raster(rng: &mut Rng) -> Vec<u8> {
+    let mut v: Vec<u8> = vec![];
+    let mut bands_done = 0i64; // completed bands (cursor row)
+    let mut widest = 0i64;
+    let n_attr = rng.range(1, 3);
+    if rng.chance(1, 4) {
+        let (lw, lh) = (rng.range(0, 12), rng.range(0, 30));
+        v.extend(gen_raster_attr(rng, lw, lh)); // a leading one that the late one overrides
+    }
+    for a in 0..n_attr {
+        // data before the attribute
+        let bands = if a == 0 { rng.range(1, 4) } else { rng.range(0, 2) };
+        let mut in_band = false;
+        for b in 0..bands {
+            let w = rng.range(1, 10);
+            v.extend(gen_band(rng, w));
+            widest = widest.max(w);
+            in_band = true;
+            if b + 1 < bands || rng.chance(1, 2) {
+                v.push(b'-');
+                bands_done += 1;
+                in_band = false;
+            } else if rng.chance(1, 4) {
+                v.push(b'$');
+            }
+        }
+        let rows = (bands_done + in_band as i64) * 6; // pixel rows decoded so far (if no earlier attribute clipped them)
+        let dh = match rng.below(6) {
+            0 => 0,
+            1 => rng.range(0, rows.max(1) - 1),                    // cuts decoded rows
+            2 => (rows - rng.range(1, 6)).max(0),                  // cuts inside the last band
+            3 => rows,
+            4 => rows + rng.range(1, 8),                           // adds rows
+            _ => rng.range(0, 40),
+        };
+        let dw = match rng.below(4) {
+            0 => (widest - rng.range(1, 4)).max(0),
+            1 => widest,
+            2 => widest + rng.range(1, 6),
+            _ => rng.range(0, 20),
+        };
+        v.extend(gen_raster_attr(rng, dw, dh));
+        // what ends the attribute: data, a control character, another attribute, the end of the payload
+        match rng.below(8) {
+            0 => v.push(b'-'),
+            1 => v.push(b'$'),
+            2 => {}
+            3 => v.extend(b"#2"),
+            _ => v.push(*rng.pick(DATA)),
+        }
+    }
+    // data after the last attribute, often running below the declared height
+    for _ in 0..rng.range(0, 3) {
+        let w = rng.range(1, 12);
+        v.extend(gen_band(rng, w));
+        if rng.chance(2, 3) {
+            v.push(b'-');
+        }
+    }
+    v
+}
+
+/// small-scope exhaustive family of late raster attributes: every data prefix x every declared size around the band
+/// boundaries x 3/4 numbers x every continuation
+fn late_raster_grid() -> Vec<Vec<u8>> {
+    let prefixes: &[&[u8]] = &[b"~", b"~-", b"~~~~-~~~~", b"~-~~~-", b"!3~-!2~-~$", b"A-~~-?", b"\"1;1;2;7~~~-~", b"\"1;1;9~-~-~", b"#1~~-#2~", b"~-~-~-"];
+    let heights: &[i64] = &[0, 1, 5, 6, 7, 8, 11, 12, 13, 18, 20];
+    let widths: &[i64] = &[0, 1, 4, 7];
+    let suffixes: &[&[u8]] = &[b"", b"~", b"-~", b"~-~-~-~", b"$!6~", b"\"2;2~", b"#3!5~-~~"];
+    let mut out = vec![];
+    for p in prefixes {
+        for &h in heights {
+            for sfx in suffixes {
+                let mut v = p.to_vec();
+                v.extend(format!("\"1;1;{}", h).bytes());
+                v.extend(*sfx);
+                out.push(v);
+                for &w in widths {
+                    let mut v = p.to_vec();
+                    v.extend(format!("\"1;1;{};{}", w, h).bytes());
+                    v.extend(*sfx);
+                    out.push(v);
+                }
+            }
+        }
+    }
+    out
 }
 
 fn boundary_payloads() -> Vec<Vec<u8>> {
@@ -669,28 +901,52 @@ fn scenario(run: &mut Run, specs: &[Spec], events: &[Ev]) {
                     failed = true;
                     break;
                 }
-                // m = number of leading arrivals whose decode has finished
+                // ---- "never loses an image, never delivers one twice, arrival order": what left the queue vs what is shown
+                // popped = handles this and all earlier polls took from the queue (since the last clear-screen)
+                let popped = order.len().saturating_sub(buf.sixel_threads.len());
+                // m = number of leading arrivals whose decode has finished: the most a poll may have taken
                 let m = order.iter().take_while(|i| finished.contains(i)).count();
                 let is_err = matches!(r, Ok(Err(_)));
-                let lo = if is_err { prev_n + 1 } else { m };
-                let mut found = None;
-                for n in lo.max(prev_n)..=m {
-                    if reference(n, &order, &decs, fw, fh) == layer_ids {
-                        found = Some(n);
-                        break;
+                let taken = &order[prev_n.min(popped)..popped];
+                let n_ok = taken.iter().filter(|&&i| matches!(decs[i], Dec::Ok(_))).count();
+                let n_bad = taken.len() - n_ok;
+                if taken.len() >= 2 {
+                    run.count(&format!("poll:batch>=2:ok={}:failing={}{}", n_ok.min(3), n_bad.min(2), if is_err { ":Err" } else { "" }));
+                    if let Some(pos) = taken.iter().position(|&i| matches!(decs[i], Dec::Err)) {
+                        run.count(&format!("poll:batch>=2:first-Err-at={}", pos.min(3)));
                     }
                 }
-                match found {
-                    Some(n) => prev_n = n,
-                    None => {
-                        run.oracle_fail(
-                            "sixel_order",
-                            &replay,
-                            &format!(
-                                "after poll #{} the layer shows images {:?}; expected the arrival-order placement of the first n arrivals for some n in {}..={} (arrival order {:?}, finished {:?})",
-                                obs.len(), layer_ids, lo.max(prev_n), m, order, { let mut f: Vec<_> = finished.iter().collect(); f.sort(); f }
-                            ),
-                        );
+                let shown = reference(popped, &order, &decs, fw, fh);
+                // every image whose handle left the queue and whose decode succeeded must be shown unless a LATER such image covers it
+                let lost: Vec<usize> = shown.iter().cloned().filter(|i| !layer_ids.contains(i)).collect();
+                let mut sorted = layer_ids.clone();
+                sorted.sort();
+                let dup = sorted.windows(2).any(|w| w[0] == w[1]);
+                let ok_total = order[..popped].iter().filter(|&&i| matches!(decs[i], Dec::Ok(_))).count();
+                let picture = format!(
+                    "after poll #{} (returned {}) {} handles have left the queue, {} of them decoded fine; the arrival-order placement of those shows {:?} but the layer shows {:?}{} (arrival order {:?}, finished {:?})",
+                    obs.len(), ret, popped, ok_total, shown, layer_ids,
+                    if lost.is_empty() { String::new() } else { format!(": image(s) {:?} lost", lost) },
+                    order, { let mut f: Vec<_> = finished.iter().collect(); f.sort(); f }
+                );
+                let mut bad: Option<(&str, String)> = None;
+                if !lost.is_empty() {
+                    bad = Some(("sixel_lost", picture));
+                } else if dup {
+                    bad = Some(("sixel_dup", picture));
+                } else if popped < prev_n || popped > m {
+                    bad = Some(("sixel_order", format!("{} handles have left the queue, but {} had left it before and only the first {} decodes have finished", popped, prev_n, m)));
+                } else if !is_err && popped != m {
+                    bad = Some(("sixel_order", format!("the poll reported no error but took only {} of the {} leading finished decodes", popped, m)));
+                } else if is_err && !(popped > prev_n && matches!(decs[order[popped - 1]], Dec::Err) && !taken[..taken.len() - 1].iter().any(|&i| matches!(decs[i], Dec::Err))) {
+                    bad = Some(("sixel_order", format!("the poll reported an error but the handles it took ({:?}) do not end at the first failing decode", taken)));
+                } else if shown != layer_ids {
+                    bad = Some(("sixel_order", picture));
+                }
+                match bad {
+                    None => prev_n = popped,
+                    Some((key, what)) => {
+                        run.oracle_fail(key, &replay, &what);
                         failed = true;
                         break;
                     }
@@ -745,11 +1001,15 @@ fn spec_sets(rng: &mut Rng, k: usize, n_sets: usize) -> Vec<Vec<Spec>> {
     // decode threads that panic between images that must still be delivered by the same poll
     let boom = Spec { px: 0, py: 0, payload: PANIC_MARKER.to_vec() };
     sets.push((0..k).map(|i| if i % 2 == 0 { boom.clone() } else { menu[[0, 0, 0, 1][i]].clone() }).collect());
+    // decodes that FAIL (Err result) behind / between good images: with every completion order and poll placement,
+    // among them the ones where two or more finished decodes meet one poll
+    let bad = |n: usize| Spec { px: 0, py: 0, payload: FAILING_PAYLOADS[n % FAILING_PAYLOADS.len()].to_vec() };
+    sets.push((0..k).map(|i| if i % 2 == 1 { bad(i + k) } else { menu[[0, 0, 2, 0][i]].clone() }).collect());
     while sets.len() < n_sets {
         let mut s = vec![];
         for i in 0..k {
             if rng.chance(1, 8) {
-                s.push(Spec { px: 0, py: 0, payload: rng.pick(&[b" ".to_vec(), b"#1;2;3~".to_vec(), b"!~".to_vec(), PANIC_MARKER.to_vec()]).clone() });
+                s.push(Spec { px: 0, py: 0, payload: rng.pick(&[b" ".to_vec(), b"#1;2;3~".to_vec(), b"!~".to_vec(), b"\"1~".to_vec(), PANIC_MARKER.to_vec()]).clone() });
             } else if rng.chance(1, 6) {
                 s.push(Spec { px: rng.range(0, 2) as i32, py: rng.range(0, 1) as i32, payload: gen_structured(rng) });
             } else {
@@ -762,6 +1022,105 @@ fn spec_sets(rng: &mut Rng, k: usize, n_sets: usize) -> Vec<Vec<Spec>> {
     }
     sets.truncate(n_sets);
     sets
+}
+
+/// payloads over the sixel alphabet that the decoder rejects (one per error kind)
+const FAILING_PAYLOADS: &[&[u8]] = &[b" ", b"#1;2;100;0", b"!~", b"\"1~", b"#1;3;0;0;0~"];
+
+/// an image of exactly `w` x `h` pixels (declared by a raster attribute, painted in colour `color`)
+fn sized_payload(color: usize, w: i64, h: i64) -> Vec<u8> {
+    let mut v = format!("\"1;1;{};{}#{}", w, h, color).into_bytes();
+    let bands = (h + 5) / 6;
+    for b in 0..bands {
+        v.extend(format!("!{}~", w).bytes());
+        if b + 1 < bands {
+            v.push(b'-');
+        }
+    }
+    v
+}
+
+/// "never loses an image", systematically: EVERY assignment of {decodes fine, decode fails, decode thread panics,
+/// still running} to k arrivals.  All that are not running complete (no poll in between), then ONE poll meets the whole
+/// batch — a failing decode at every position of the batch, in front of / between / behind good images —, closing polls
+/// take the rest, then the running ones complete and are polled.  Three geometries: disjoint images, each image
+/// covering all earlier ones, all at one place with nobody covered.
+fn batch_family(run: &mut Run, k: usize, geometries: &[usize]) {
+    let n = 4usize.pow(k as u32);
+    for a in 0..n {
+        let kind = |j: usize| (a / 4usize.pow(j as u32)) % 4;
+        for &g in geometries {
+            let specs: Vec<Spec> = (0..k)
+                .map(|j| match kind(j) {
+                    1 => Spec { px: 0, py: 0, payload: FAILING_PAYLOADS[(a + j) % FAILING_PAYLOADS.len()].to_vec() },
+                    2 => Spec { px: 0, py: 0, payload: PANIC_MARKER.to_vec() },
+                    _ => match g {
+                        0 => Spec { px: 3 * j as i32, py: 0, payload: block_payload(j + 1, 8, 1 + (j as i64 % 2)) },
+                        1 => Spec { px: 0, py: 0, payload: block_payload(j + 1, 8 * (j as i64 + 1), j as i64 + 1) },
+                        _ => Spec { px: 0, py: 0, payload: block_payload(j + 1, 8 * (k - j) as i64, j as i64 + 1) },
+                    },
+                })
+                .collect();
+            let mut ev: Vec<Ev> = (0..k).map(Ev::Arrive).collect();
+            let mut done: Vec<usize> = (0..k).filter(|&j| kind(j) != 3).collect();
+            if a % 2 == 0 {
+                done.reverse();
+            }
+            ev.extend(done.iter().map(|&j| Ev::Finish(j)));
+            ev.extend(std::iter::repeat(Ev::Poll).take(k + 1));
+            ev.extend((0..k).filter(|&j| kind(j) == 3).map(Ev::Finish));
+            ev.extend(std::iter::repeat(Ev::Poll).take(k + 1));
+            run.count("queue:family=batch-at-one-poll");
+            scenario(run, &specs, &ev);
+        }
+    }
+}
+
+/// "a newer image replaces older images it FULLY covers": an older image that sticks out of the newer one on each of
+/// the four sides (by a cell, by one pixel), shares its borders / a corner, is identical, lies strictly inside, is
+/// disjoint; both arrival orders, both completion orders, with and without a poll between the completions
+fn cover_family(run: &mut Run) {
+    // (old: px, py, w, h), (new: px, py, w, h) in cells / pixels; the font is 8 x 16
+    let pairs: &[((i32, i32, i64, i64), (i32, i32, i64, i64))] = &[
+        ((0, 0, 8, 12), (0, 0, 8, 6)),    // sticks out below
+        ((0, 0, 8, 7), (0, 0, 8, 6)),     // … by one pixel row
+        ((0, 0, 16, 6), (0, 0, 8, 6)),    // sticks out to the right
+        ((1, 0, 9, 6), (0, 0, 16, 6)),    // … by one pixel
+        ((0, 0, 16, 6), (1, 0, 8, 6)),    // sticks out to the left
+        ((0, 0, 8, 32), (0, 1, 8, 16)),   // sticks out above
+        ((0, 0, 8, 6), (0, 0, 8, 6)),     // identical
+        ((1, 0, 8, 6), (0, 0, 24, 12)),   // strictly inside
+        ((1, 0, 8, 6), (0, 0, 16, 6)),    // shares the right and the bottom border
+        ((0, 1, 8, 16), (0, 0, 8, 32)),   // shares the bottom border, starts lower
+        ((0, 0, 8, 6), (2, 0, 8, 6)),     // disjoint
+        ((0, 0, 24, 12), (1, 0, 8, 6)),   // the older one is the bigger one
+    ];
+    // one big image removes SEVERAL older ones in one placement (two adjacent entries of the vector, then one that
+    // sticks out below and must stay, then another covered one)
+    let pile = vec![
+        Spec { px: 0, py: 0, payload: sized_payload(1, 8, 6) },
+        Spec { px: 2, py: 0, payload: sized_payload(2, 8, 6) },
+        Spec { px: 4, py: 0, payload: sized_payload(3, 8, 40) },
+        Spec { px: 0, py: 0, payload: sized_payload(4, 64, 32) },
+    ];
+    for perm in [[0usize, 1, 2, 3], [3, 2, 1, 0], [3, 0, 2, 1]] {
+        for mask in [0b1000u32, 0b1111, 0b0101] {
+            run.count("queue:family=partial-cover");
+            scenario(run, &pile, &canonical(4, &perm, mask, false, 1));
+        }
+    }
+    for (old, new) in pairs {
+        let a = Spec { px: old.0, py: old.1, payload: sized_payload(1, old.2, old.3) };
+        let b = Spec { px: new.0, py: new.1, payload: sized_payload(2, new.2, new.3) };
+        for specs in [vec![a.clone(), b.clone()], vec![b.clone(), a.clone()]] {
+            for perm in [[0usize, 1], [1, 0]] {
+                for mask in [0b10u32, 0b11] {
+                    run.count("queue:family=partial-cover");
+                    scenario(run, &specs, &canonical(2, &perm, mask, false, 1));
+                }
+            }
+        }
+    }
 }
 
 fn permutations(k: usize) -> Vec<Vec<usize>> {
@@ -1575,6 +1934,14 @@ pub fn run(run: &mut Run, seed: u64, thorough: bool, replay: Option<&str>, corpu
         let p = gen_stream(&mut rng, max_len);
         one_payload(run, &p);
     }
+    // raster attributes after picture data (the decoded rows above the declared height must go)
+    for p in late_raster_grid() {
+        one_payload(run, &p);
+    }
+    for _ in 0..(if thorough { 40_000 } else { 2000 }) {
+        let p = gen_late_raster(&mut rng);
+        one_payload(run, &p);
+    }
     // exhaustive small scope over a reduced alphabet (every control char, two data chars, digits, ';')
     let alphabet: &[u8] = b"~A?-$!#\";12";
     exhaustive(run, alphabet, if thorough { 5 } else { 3 });
@@ -1605,7 +1972,7 @@ pub fn run(run: &mut Run, seed: u64, thorough: bool, replay: Option<&str>, corpu
     // ---------------- (b) schedules
     let t_q = Instant::now();
     for k in 1..=4usize {
-        let n_sets = if thorough { 12 } else { 4 };
+        let n_sets = if thorough { 13 } else { 5 };
         let sets = spec_sets(&mut rng, k, n_sets);
         let perms = permutations(k);
         for specs in sets.iter() {
@@ -1617,6 +1984,8 @@ pub fn run(run: &mut Run, seed: u64, thorough: bool, replay: Option<&str>, corpu
                 }
             }
         }
+        // every ok / failing / panicking / running assignment meeting ONE poll
+        batch_family(run, k, &[0, 1, 2]);
         // a clear-screen while decodes are in flight / after some were shown: nothing that arrived before it may appear
         for (j, perm) in perms.iter().enumerate() {
             let specs = &sets[j % sets.len()];
@@ -1642,12 +2011,13 @@ pub fn run(run: &mut Run, seed: u64, thorough: bool, replay: Option<&str>, corpu
         }
         // arrivals interleaved with completions and polls
         for _ in 0..(if thorough { 2500 } else { 300 }) {
-            let sets = spec_sets(&mut rng, k, 4);
+            let sets = spec_sets(&mut rng, k, 9);
             let specs = rng.pick(&sets).clone();
             let ev = random_events(&mut rng, k);
             scenario(run, &specs, &ev);
         }
     }
+    cover_family(run);
     if thorough {
         // a decode that runs for ~1 s and then FAILS (`result?`): the cursor overflow payload, an overflow panic
         // before the three cursor fixes (no payload is known to panic any more: theorem `sixel_total`)
@@ -1660,6 +2030,6 @@ pub fn run(run: &mut Run, seed: u64, thorough: bool, replay: Option<&str>, corpu
         scenario(run, &specs, &canonical(3, &[1, 0, 2], 0b101, false, 2));
     }
     run.extra.push(("queue_phase_ms".into(), t_q.elapsed().as_millis().to_string()));
-    run.extra.push(("exhaustive_orders_and_poll_placements".into(), format!("k<=4: all k! completion orders x all 2^k poll placements ({} geometry sets per k)", if thorough { 12 } else { 4 })));
+    run.extra.push(("exhaustive_orders_and_poll_placements".into(), format!("k<=4: all k! completion orders x all 2^k poll placements ({} geometry sets per k)", if thorough { 13 } else { 5 })));
     run.extra.push(("blocked_polls".into(), BLOCKED_SCENARIOS.load(Ordering::SeqCst).to_string()));
 }
